@@ -71,22 +71,26 @@ class C17(Prop):
         out = []
         for attr in ('eq', 'ord'):
             opts = field_options(attr)
-            for shape, mode in itertools.product(('named', 'tuple', 'enum0', 'enum1', 'enumt0', 'enumt1'), ('attr', 'derive')):
+            # enumd0 / enumd1: as enumt0 / enumt1 with explicit discriminants on the variants (under #[repr(u8)])
+            for shape, mode in itertools.product(('named', 'tuple', 'enum0', 'enum1', 'enumt0', 'enumt1', 'enumd0', 'enumd1'),
+                                                 ('attr', 'derive')):
                 combos = [(o,) for o in opts] + [(a, b) for a in opts for b in opts if (a[3] != b[3] or a[0] != b[0])]
                 # three fields: an ignored field before / between compared ones (positions must not drift)
                 ign = [o for o in opts if o[0].endswith('ignore')]
                 plain = [o for o in opts if o[0] in ('u8', 'F')]
                 combos += [(i, p, q) for i in ign for p in plain for q in plain] + [(p, i, q) for i in ign for p in plain for q in plain]
                 for fl in combos:
-                    tup = shape in ('tuple', 'enumt0', 'enumt1')
+                    tup = shape in ('tuple', 'enumt0', 'enumt1', 'enumd0', 'enumd1')
                     fs = [sx.field(t, name=None if tup else ('f%d' % i), attrs=at)
                           for i, (_, t, at, _) in enumerate(fl)]
                     body = sx.unnamed(fs) if tup else sx.named(fs)
                     if shape.startswith('enum'):
-                        vs = [sx.variant('A', body), sx.variant('B', sx.unnamed([sx.field(sx.tid('u8'))]))]
-                        if shape in ('enum1', 'enumt1'):
+                        dis = shape in ('enumd0', 'enumd1')
+                        vs = [sx.variant('A', body, discr='4' if dis else None),
+                              sx.variant('B', sx.unnamed([sx.field(sx.tid('u8'))]), discr='2' if dis and shape == 'enumd1' else None)]
+                        if shape in ('enum1', 'enumt1', 'enumd1'):
                             vs.reverse()
-                        it = sx.enum('E', vs)
+                        it = sx.enum('E', vs, attrs=[sx.a_other('repr ( u8 )')] if dis else [])
                         kw = '(enum ('
                     else:
                         it = sx.struct('X', body)
